@@ -217,6 +217,10 @@ def work_fog(snap, model, _):
         acc.call(f"fog.nearest_right({tag})", lambda nb=nb: f.nearest_right(nb), NIB, st, "fog")
         if snap:
             acc.call(f"fog.explore(member, [{tag}])", lambda nb=nb: f.explore(snap[0], [nb]), NIB, st, "fog")
+    # a serialised fog whose packed prefix carries the leaf flag decodes to a nibble sequence containing 16: a malformed
+    # nibble sequence, to be refused like any other (other kinds of garbage handed to deserialize are outside the property)
+    for tag, blob in (("leaf-flagged prefix (decodes to nibble 16)", b"HexaryTrieFog:[b' \x12']"), ("odd leaf-flagged prefix", b"HexaryTrieFog:[b'1']")):
+        acc.call(f"HexaryTrieFog.deserialize({tag})", lambda blob=blob: HexaryTrieFog.deserialize(blob), NIB, st, "fog_deserialize")
     return acc.evals, acc.ok, acc.viols, dict(acc.stats)
 
 
